@@ -215,3 +215,15 @@ package doif
 //@   ensures c == cmpOpGreaterOrEqual ==> result == (lhs >= rhs)
 //@   ensures c == cmpOpEqual ==> result == (lhs == rhs)
 //@   ensures c == cmpOpNotEqual ==> result == (lhs != rhs)
+
+// extractOpValuesFromArr: one op value per configured list element, in order - the
+// extractor knows neither the op nor case_sensitive, so it must not merge values
+// ("Error" and "ERROR" are two values of a case-sensitive op; `^\d+$` and `^\D+$`
+// are two regexps).
+
+//@ func extractOpValuesFromArr
+//@   ensures result1 == nil ==> len(result0) == len(values)
+//@   loop 1 invariant len(vals) == rangeindex + 1 && rangeindex < len(values)
+//@   callee Errorf(f, a) (e)
+//@     pure
+//@     ensures e != nil
